@@ -27,6 +27,9 @@ FIXED = [
     ("neq_guard", "f = 0\nx = 0\nwhile f /= 2:\n    f = DiscreteUniform(0, 2)\n    x = x + f\nend\n", ["x", "f"]),
     ("constant_probabilistic_init", "b = Bernoulli(1/2)\nx = 0\nwhile true:\n    if b == 1:\n        x = x + 1\n    end\nend\n", ["x", "b*x", "b"]),
     ("counter_bounded_by_guard", "c = 0\nx = 0\nwhile c < 3:\n    c = c + 1 {1/2} c\n    x = x + c\nend\n", ["c", "x"]),
+    ("dice_sum", "d1 = 1\nd2 = 1\nx = 0\nwhile true:\n    d1 = DiscreteUniform(1, 6)\n    d2 = DiscreteUniform(1, 6)\n    if d1 + d2 == 7:\n        x = x + 1\n    end\nend\n", ["x", "x**2"]),
+    ("dice_sticky", "d1 = 1\nd2 = 6\nk = 0\nx = 0\nwhile true:\n    k = Bernoulli(1/2)\n    if k == 1:\n        d1 = DiscreteUniform(1, 6)\n    else:\n        d2 = DiscreteUniform(1, 6)\n    end\n    if d1 + d2 == 7:\n        x = x + 1\n    end\nend\n", ["x"]),
+    ("finite_coefficient_power", "c = 1\nx = 1\nwhile true:\n    c = 1 {1/2} 2\n    x = c**2*x/4 + c\nend\n", ["x", "c*x"]),
     ("two_flags", "a = 0\nb = 1\nx = 1\nwhile true:\n    a = 1 - a\n    b = Bernoulli(1/4)\n    if a == 1 && b == 0:\n        x = 2*x\n    elif a == 0 || b == 1:\n        x = x + 1\n    end\nend\n", ["x", "a*x", "b*x"]),
 ]
 
@@ -130,6 +133,9 @@ def main(tier, seed):
             # by the README nobody has to declare types: the same loop without the declaration (finding D12)
             items.append(dict(base, id=f"cls-{seed}-{i}-untyped", text=gen.render(gen.to_text_template(T)), types=None,
                               meta={"finding": "D12"}))
+    for it in items:
+        if it["id"].startswith("shape-"):
+            it["solvability_check"] = True       # the CLI's --solvability_check must not refuse effective monomials
     return analysis_check("C18", tier, seed, items=items, want=["parsed", "moments"],
                           builders=[C.b_source, b_inclass, C.b_moments], N=4 if quick else 6, timeout=100, post=post,
                           assumptions=["class membership: syntactic restrictions hold by construction of the generator; finiteness of the condition variables is confirmed by TLC up to depth N",
